@@ -132,8 +132,9 @@ func (st *State) doCall(instr *ssa.Call, c *ssa.CallCommon, fnv Value, args []Va
 		return st.finishCall(instr, r, deferred)
 	}
 	// caller-side assertions attached to calls of this callee ("before <callee>: assert e"), top-level frame only
-	if fr := st.frame; fr.parent == nil && fr.spec != nil && fr.spec.Before != nil {
-		if cs := fr.spec.Before[key]; len(cs) > 0 {
+	// (also inside an inlined helper that has no contract of its own: the call was moved there; names resolve in the helper)
+	if fr := st.frame; st.u.spec != nil && st.u.spec.Before != nil && (fr.parent == nil || fr.spec == nil) {
+		if cs := st.u.spec.Before[key]; len(cs) > 0 {
 			if st.u.beforeHit == nil {
 				st.u.beforeHit = map[string]bool{}
 			}
